@@ -23,7 +23,10 @@
 (*   emits, per grid, every set of Neumann boundary faces with at most     *)
 (*   MaxNeu elements (2D also: all boundary faces but at most one) that    *)
 (*   satisfies MechOracle!Admissible - in 3D no two Neumann faces share an *)
-(*   edge.  The harness samples from the emitted sets.  Grids must be a    *)
+(*   edge; and, for every mode in RollModes, the component-wise (rolling)  *)
+(*   assignment on each such set (MechOracle!RollComps; the rest of the    *)
+(*   boundary fully Dirichlet).  The harness samples from the emitted      *)
+(*   assignments.  Grids must be a                                         *)
 (*   genuine constant (written into the MC module, not read with IOEnv):   *)
 (*   TLC then evaluates the tables GridBF / AdmSets once.                  *)
 (***************************************************************************)
@@ -39,7 +42,8 @@ CONSTANTS Kinds,      \* subset of {"cart", "simplex"}
           AlphaCat,   \* sequence of coupling tensors (integer 3 x 3 matrices; <<>> if unused)
           Fields,     \* sequence of displacement gradients (integer 3 x 3 matrices)
           Grids,      \* SpecBc: sequence of grid records
-          MaxNeu      \* SpecBc: largest enumerated Neumann set
+          MaxNeu,     \* SpecBc: largest enumerated Neumann set
+          RollModes   \* SpecBc: subset of {"rollN", "rollT"}: component-wise (rolling) assignments on the enumerated sets
 
 VARIABLES stage, cs
 evars == <<stage, cs>>
@@ -109,9 +113,19 @@ AdmSets == [i \in 1..Len(Grids) |->
                  few == UpTo(bf, MaxNeu)
                  cand == IF Gr.dim = 2 THEN few \cup {bf \ t : t \in UpTo(bf, 1)} ELSE few
              IN {t \in cand : NoSharedEdge(Gr, t)}]
+\* component-wise assignments: the faces of an enumerated set (not the whole boundary) get the rolling condition
+\* `mode`, every other boundary face is Dirichlet in all components.  nc = the Neumann components <<f, k>>.
+\* (3D: single faces only - the number of pairs is large and adds nothing for a per-face condition)
+RollSets == [i \in 1..Len(Grids) |-> {t \in AdmSets[i] : t # {} /\ t # GridBF[i] /\ (Grids[i].dim = 3 => Cardinality(t) = 1)}]
+PairLess(a, b) == a[1] < b[1] \/ (a[1] = b[1] /\ a[2] < b[2])
+RollPairs(Gr, N, mode) == UNION {{<<f, k>> : k \in RollComps(Gr, f, mode)} : f \in N}
 InitBc == stage = "pick" /\ cs \in {[g |-> i, neu |-> <<>>] : i \in 1..Len(Grids)}
 PickBc == /\ stage = "pick" /\ stage' = "done"
-          /\ \E N \in AdmSets[cs.g] : cs' = [g |-> cs.g, neu |-> SetToSortSeq(N, <)]
+          /\ \/ \E N \in AdmSets[cs.g] : cs' = [g |-> cs.g, neu |-> SetToSortSeq(N, <), nc |-> <<>>, mode |-> "face"]
+             \/ \E N \in RollSets[cs.g], m \in RollModes :
+                  LET pairs == RollPairs(Grids[cs.g], N, m) IN
+                  /\ Assert(CompAdmissible(Grids[cs.g], GridBF[cs.g], {}, pairs), "enumerated assignment not admissible")
+                  /\ cs' = [g |-> cs.g, neu |-> <<>>, nc |-> SetToSortSeq(pairs, PairLess), mode |-> m]
 NextBc == PickBc
 SpecBc == InitBc /\ [][NextBc]_evars
 EmitBc == stage = "done" => PrintT(ToJson(cs))
